@@ -54,6 +54,7 @@ namespace verif
         std::vector<Block> blocks;
 
         bool carve       = false; // consecutive blocks without guard gap
+        bool down        = false; // new blocks below the earlier ones instead of above
         bool adversarial = true;  // block bases aligned to the requested alignment and no more
         long fail_in     = 0;     // >0: the fail_in-th upstream allocation from now fails
         long up_calls    = 0;     // upstream allocation calls so far (including failed ones)
@@ -85,6 +86,21 @@ namespace verif
         {
             if (align == 0)
                 align = 1;
+            if (down && !carve)
+            {
+                // descending placement: every new block lies below all earlier ones
+                if (static_cast<std::size_t>(end - cur) < size + 256 + 2 * align)
+                    std::abort();
+                auto d = (reinterpret_cast<std::uintptr_t>(end) - 64 - size) / align * align;
+                if (adversarial && align < 4096 && (d / align) % 2 == 0)
+                    d -= align;
+                char* dbase = reinterpret_cast<char*>(d);
+                std::memset(dbase + size, guard_byte, static_cast<std::size_t>(end - (dbase + size)));
+                std::memset(dbase - 64, guard_byte, 64);
+                gap = 64;
+                end = dbase - 64;
+                return dbase;
+            }
             auto a = reinterpret_cast<std::uintptr_t>(cur);
             if (!carve)
                 a += 64; // guard gap in front
